@@ -191,7 +191,7 @@ def settle_task(loop, lt):
 STUBS = {asyncio.wait_for: wait_for_contract, asyncio.sleep: sleep_contract, asyncio.get_running_loop: running_loop_contract}
 
 
-@harness(("C09", "C07"), cases=[(k, w, r) for k in (1, 2, 3) for w in (True, False) for r in (0, 1)], quick=lambda k, w, r: k <= 2, budget_s=1500, stubs=STUBS)
+@harness(("C09", "C07"), cases=[(k, w, r) for k in (1, 2, 3) for w in (True, False) for r in (0, 1)], quick=lambda k, w, r: k <= 2, budget_s=3600, stubs=STUBS)
 def one_command_episode(k, wait_for_reply, retries):
     """One caller sends one command; then any k outside events in any realisable order -- the echo
     arrives, the reply arrives, an unrelated packet arrives, the running echo/reply timer expires,
@@ -296,7 +296,7 @@ class OtherCmd(FakeCmd):
         self.src = FakeAddr("18:000730")
 
 
-@harness(("C07", "C09"), cases=[(k,) for k in (2, 3)], quick=lambda k: k <= 2, budget_s=1500, stubs=STUBS)
+@harness(("C07", "C09"), cases=[(k,) for k in (2, 3)], quick=lambda k: k <= 2, budget_s=3600, stubs=STUBS)
 def two_callers_get_their_own_packets(k):
     """Two callers, A then B (different commands, B queued behind A), and any k outside events among:
     A's echo / A's reply / B's echo / B's reply arrive, the running timer expires, A's caller times
@@ -388,7 +388,7 @@ def _let_time_pass(loop, ctx, callers, limit):
         break
 
 
-@harness(("C09", "C07"), cases=[(k, w) for k in (1, 2, 3) for w in (True, False)], quick=lambda k, w: k <= 2, budget_s=1500, stubs=STUBS)
+@harness(("C09", "C07"), cases=[(k, w) for k in (1, 2, 3) for w in (True, False)], quick=lambda k, w: k <= 2, budget_s=3600, stubs=STUBS)
 def episode_with_disconnect(k, wait_for_reply):
     """One caller sends one command (one retry allowed); then any k outside events, interleaved anywhere
     with the loop's queued work, among: the echo / the reply arrives, the running timer expires, the caller's
@@ -532,7 +532,7 @@ def a_lost_connection_can_be_made_again():
     check(len(loop.unhandled) == 0, "nothing reached the loop's exception handler")
 
 
-@harness(("C07", "C09"), cases=[(k,) for k in (2, 3)], quick=lambda k: k <= 2, budget_s=1500, stubs=STUBS)
+@harness(("C07", "C09"), cases=[(k,) for k in (2, 3)], quick=lambda k: k <= 2, budget_s=3600, stubs=STUBS)
 def a_second_caller_arrives_at_any_moment(k):
     """Caller A's command is under way; a second caller B (another command) calls send_cmd at ANY moment
     among k outside events -- A's echo / reply arrive, the running timer expires, A's caller times out --
